@@ -1677,6 +1677,49 @@ func (m *Model) ruleVIEWPARAMS(r *Results) {
 	for _, name := range viewParamsHonoured {
 		r.check(read[name], rule, m.declName(root)+" / option "+name, m.pos(root.Pos()), "the option is read by the view query path", "the view query path no longer reads the option "+name+": queries that set it get rows as if it had its default")
 	}
+	// the options the library's post-processing honours (multiple keys, reduce, grouping) are
+	// applied to every result: the call of the sg-bucket post-processor is on every path that
+	// returns without an error
+	for _, fn := range m.Funcs {
+		if fn.Parent() != nil {
+			continue
+		}
+		m.eachCall(fn, func(c ssa.CallInstruction) {
+			g := c.Common().StaticCallee()
+			if g == nil || g.Pkg == nil || g.Pkg.Pkg.Path() != sgbucketPath || !strings.HasPrefix(g.Name(), "Process") || g.Signature.Recv() == nil {
+				return
+			}
+			cu := newCut()
+			cu.cutBlock(c.Block())
+			for _, iff := range allIfs(fn) {
+				cd := condOf(iff)
+				eq, ok := cd.equalEdge()
+				if !ok || !(isNilConst(cd.X) || isNilConst(cd.Y)) {
+					continue
+				}
+				other := cd.X
+				if isNilConst(cd.X) {
+					other = cd.Y
+				}
+				if !isErrorType(other.Type()) {
+					continue
+				}
+				for _, sx := range iff.Block().Succs {
+					if sx != eq {
+						cu.cutEdge(iff.Block(), sx)
+					}
+				}
+			}
+			reach := entryReach(fn, cu)
+			bad := ""
+			for _, ret := range returnsOf(fn) {
+				if reach[ret.Block().Index] && !m.mustBeFailureReturn(ret) {
+					bad = m.instrPos(ret)
+				}
+			}
+			r.check(bad == "", rule, m.declName(fn)+" / the result is post-processed on every path", m.instrPos(c), "every return without an error lies behind the call of "+g.Name(), "the view query can return (at "+bad+") without having handed the rows to "+g.Name()+", which is where multiple keys, reduce and grouping are applied: a query with `keys` then gets every row of the index")
+		})
+	}
 }
 
 // ---------------------------------------------------------------- R-OPEN-ERR
@@ -2394,6 +2437,73 @@ func (m *Model) ruleWRITEPATH(r *Results) {
 	if n < 10 {
 		r.undecided(rule, "instance-floor", "-", "only %d exported mutating entry points found", n)
 	}
+	// ... and the other way round: once the write transaction has committed, the operation does
+	// not fail. In the function that runs the allocator (or the runner) no error is made, or taken
+	// from another call, on the way from the committed call to a return.
+	nc := 0
+	for _, fn := range m.Funcs {
+		if fn.Parent() != nil || len(fn.Blocks) == 0 || fn == a.Allocator || fn == a.TxnRunner {
+			continue
+		}
+		m.eachCall(fn, func(c ssa.CallInstruction) {
+			callee := c.Common().StaticCallee()
+			if callee != a.Allocator && callee != a.TxnRunner && callee != a.WithMetaFn {
+				return
+			}
+			if _, isGo := c.(*ssa.Go); isGo || inCycle(c.Block()) {
+				return
+			}
+			commit, ok := c.(*ssa.Call)
+			if !ok {
+				return
+			}
+			nc++
+			// error values produced after the commit ...
+			late := ""
+			for _, b := range fn.Blocks {
+				for _, ins := range b.Instrs {
+					v, ok := ins.(ssa.Value)
+					if !ok || !isErrorType(v.Type()) || ins == ssa.Instruction(commit) || !forwardReachable(commit, ins) {
+						continue
+					}
+					switch ins.(type) {
+					case *ssa.Call, *ssa.MakeInterface:
+					default:
+						continue
+					}
+					// ... that reach a return or the result cell
+					if v.Referrers() == nil {
+						continue
+					}
+					for _, u := range *v.Referrers() {
+						switch x := u.(type) {
+						case *ssa.Return:
+							late = m.instrPos(ins)
+						case *ssa.Store:
+							if al, ok := x.Addr.(*ssa.Alloc); ok && x.Val == v {
+								res := fn.Signature.Results()
+								for ri := 0; ri < res.Len(); ri++ {
+									if res.At(ri).Name() != "" && res.At(ri).Name() == al.Comment && isErrorType(res.At(ri).Type()) {
+										late = m.instrPos(ins)
+									}
+								}
+							}
+						case *ssa.Phi:
+							if x.Referrers() != nil {
+								for _, u2 := range *x.Referrers() {
+									if _, isRet := u2.(*ssa.Return); isRet {
+										late = m.instrPos(ins)
+									}
+								}
+							}
+						}
+					}
+				}
+			}
+			r.check(late == "", rule, m.declName(fn)+" / no failure after the commit", m.instrPos(c), "no error is produced between the committed transaction and the return", "an error made after the transaction has committed (at "+late+") is returned to the caller: the call reports a failure although the document - body, CAS, expiry - has changed and the event was posted")
+		})
+	}
+	r.ok(rule, "commits", "-", "%d call(s) of the transaction runner / allocator outside loops", nc)
 }
 
 // fromCallbackResult: the value is computed from a result of calling one of fn's func-typed parameters.
@@ -2873,9 +2983,16 @@ func (m *Model) ruleVIEWSTALE(r *Results) {
 	cutFor = func(f *ssa.Function, a staleVal, depth int) (*cut, int) {
 		c := newCut()
 		decided := 0
-		for _, iff := range allIfs(f) {
-			cd := condOf(iff)
+		for _, d := range m.decisions(f, topFrame(f)) {
+			iff := d.If
+			cd := d.C
 			if cd.Y == nil {
+				// a phi edge that carries a constant (`a || b`: true from a's true edge)
+				if d.Pred != nil && cd.X != nil {
+					if k, ok := stripConv(cd.X).(*ssa.Const); ok && k.Value != nil && k.Value.Kind() == constant.Bool {
+						d.cutSucc(c, cd.succWhen(!constant.BoolVal(k.Value)))
+					}
+				}
 				continue
 			}
 			eq, ok := cd.equalEdge()
@@ -2906,7 +3023,7 @@ func (m *Model) ruleVIEWSTALE(r *Results) {
 			decided++
 			for _, sc := range iff.Block().Succs {
 				if (sc == eq) != equal {
-					c.cutEdge(iff.Block(), sc)
+					d.cutSucc(c, sc)
 				}
 			}
 		}
